@@ -1,7 +1,8 @@
 //! Fixed-capacity vector shadowing `Vec`/`vec!` in the generated copies used by the
 //! *bounded* obligations of iterating functions (real `Vec` growth under a symbolic
 //! length defeats CBMC, DESIGN.md section 1). Stable insertion sort, like `slice::sort_by_key`.
-pub const VCAP: usize = 2 * crate::CAP;
+/// capacity: VCOLL_VCAP at compile time, default 2 * CAP
+pub const VCAP: usize = crate::parse_vcap(option_env!("VCOLL_VCAP"));
 
 pub struct VVec<T> {
     n: usize,
@@ -173,4 +174,10 @@ macro_rules! vvec {
         $( v.push($x); )+
         v
     }};
+}
+
+impl<T> crate::Havoc for VVec<T> {
+    fn havoc() -> Self {
+        panic!("vcoll: VVec values are not havocked (the owning map must be concrete)")
+    }
 }
